@@ -287,6 +287,86 @@ def h_long_lines(renderer, sizes):
     return h
 
 
+def h_every_difference(renderer):
+    """every diff shape of up to three items: each unmatched expectation and each unexpected line is in the rendering"""
+    import itertools
+    from mir_exec import Agg, Opaque, Slice, Str, StringBuf, VecBuf, find_method, mk_int, mk_struct, new_ref
+    from mir_models import as_str, none
+    from props.c08 import get_maker
+
+    def mk(kinds, surrounding):
+        def setup(ctx):
+            ctx.notes["kinds"] = kinds
+            ctx.notes["surrounding"] = surrounding
+            return []
+        return setup
+
+    def drive(ctx, args):
+        """render(&[&outcome]) for a diff made of matched / unmatched / unexpected items with distinct texts"""
+        prog = ctx.program
+        parse = find_method(prog, "src/expectation.rs", "parse")
+        maker = get_maker(ctx)
+        kinds = ctx.notes["kinds"]
+        items, exps, must = [], [], []
+        ei = li = 0
+        for k in kinds:
+            if k in "MU":
+                text = "exp%dq" % ei
+                r = ctx.call(parse, [new_ref(maker), Str([SInt(ord(c), "char") for c in text])])
+                e = r.fields[0]
+                exps.append(e)
+            if k == "U":
+                items.append(Agg("DiffLine", "UnmatchedExpectation", [mk_int(ei, "usize"), e]))
+                must.append(text)
+                ei += 1
+            elif k == "M":
+                line = VecBuf([SInt(b, "u8") for b in (text + "\n").encode()], "u8")
+                items.append(Agg("DiffLine", "MatchedExpectation", [mk_int(ei, "usize"), e, VecBuf([Agg("tuple", None, [mk_int(li, "usize"), line])])]))
+                ei += 1
+                li += 1
+            else:
+                # a run of two unexpected lines
+                run = []
+                for _ in range(2):
+                    t = "out%dz" % li
+                    run.append(Agg("tuple", None, [mk_int(li, "usize"), VecBuf([SInt(b, "u8") for b in (t + "\n").encode()], "u8")]))
+                    must.append(t)
+                    li += 1
+                items.append(Agg("DiffLine", "UnexpectedLines", [VecBuf(run)]))
+        ctx.notes["must"] = must
+        diff = mk_struct("Diff", lines=VecBuf(items), count_matched=mk_int(sum(1 for k in kinds if k == "M"), "usize"),
+                         count_unmatched=mk_int(sum(1 for k in kinds if k == "U"), "usize"), count_output_lines=mk_int(li, "usize"))
+        tc = mk_struct("TestCase", title=StringBuf([SInt(ord("t"), "char")]), shell_expression=StringBuf([SInt(ord(c), "char") for c in "cmd"]),
+                       expectations=VecBuf(exps), exit_code=none(), line_number=mk_int(3, "usize"), config=Opaque("config"))
+        out = mk_struct("Output", stderr=Agg("OutputStream", None, [VecBuf([], "u8")]), stdout=Agg("OutputStream", None, [VecBuf([], "u8")]),
+                        exit_code=Agg("ExitStatus", "Code", [mk_int(0, "i32")]))
+        outcome = mk_struct("Outcome", location=none(), output=out, testcase=tc, format=Agg("ParserType", "Markdown", []), escaping=Agg("Escaper", "Unicode", []),
+                            result=Agg("Result", "Err", [Agg("TestCaseError", "MalformedOutput", [diff])]))
+        if renderer == "diff":
+            return ctx.call(prog.resolve_call("<DiffRenderer as Renderer>::render"), [new_ref(Agg("DiffRenderer", None, [])), Slice([new_ref(outcome)])])
+        rend = mk_struct("PrettyColorRenderer", max_surrounding_lines=mk_int(ctx.notes["surrounding"], "usize"), absolute_line_numbers=SBool(False), summarize=SBool(True))
+        return ctx.call(prog.resolve_call("<PrettyColorRenderer as Renderer>::render"), [new_ref(rend), Slice([new_ref(outcome)])])
+
+    def post(ctx, args, kind, value):
+        if kind != "return" or value.variant != "Ok":
+            return False
+        text = "".join(chr(c.v) if c.concrete else "?" for c in as_str(value.fields[0]).chars)
+        return all(t in text for t in ctx.notes["must"])
+    inputs = []
+    for n in (1, 2, 3):
+        for kinds in itertools.product("MUX", repeat=n):
+            if "U" not in kinds and "X" not in kinds:
+                continue
+            for sur in ((0, 1, 5) if renderer == "pretty" else (0,)):
+                inputs.append(("diff items=%s surrounding=%d" % ("".join(kinds), sur), mk("".join(kinds), sur)))
+    h = e2.Harness("%s_renderer_every_difference" % renderer, drive, inputs, post, native=None, judge=None,
+                   describe="the %s rendering of a failed test case contains every unmatched expectation and every unexpected output line" % renderer,
+                   bound="every sequence of 1..3 diff items (matched / unmatched expectation / run of two unexpected lines) with at least one difference%s"
+                         % ("; 0, 1 and 5 surrounding lines" if renderer == "pretty" else ""))
+    h.models_cls = TextModels
+    return h
+
+
 def h_diff_renderer(max_bytes):
     """`-r diff` on one failed test case whose diff has an unmatched expectation and one unexpected output line of arbitrary bytes"""
     from mir_exec import Agg, Opaque, Slice, Str, StringBuf, VecBuf, find_method, mk_int, mk_struct, new_ref
@@ -436,6 +516,23 @@ def run(pid, tier):
             else:
                 rep.mismatches.append("%s: solver witness (%d chars) did not reproduce natively" % (hl2.name, len(text)))
         e2.record(rep, hl2, resl)
+    # every difference of every small diff shape is in the rendering
+    for rend in ("pretty", "diff"):
+        he = h_every_difference(rend)
+        rese = e2.run_with_raw(prog, he, max_witnesses=4)
+        for model, r in rese.raw_witnesses[:4]:
+            kinds, sur = r.ctx.notes["kinds"], r.ctx.notes["surrounding"]
+            nk, nv = NAT.call("render_diff_shape", [kinds, sur])
+            got = nv.get(rend) if nk == "return" else None
+            text = got.get("Ok") if isinstance(got, dict) else None
+            missing = [t for t in r.ctx.notes["must"] if text is None or t not in text]
+            if missing:
+                rep.violation("%s-renderer:difference-not-shown" % rend, "the %s rendering of the diff shape %s (%d surrounding lines) lacks %s: %s"
+                              % (rend, kinds, sur, missing, str(got)[:200]),
+                              {"kind": "eval", "fn": "render_diff_shape", "args": [kinds, sur], "native": [nk, str(nv)[:600]], "harness": he.name})
+            else:
+                rep.mismatches.append("%s: solver witness %s/%d did not reproduce natively" % (he.name, kinds, sur))
+        e2.record(rep, he, rese)
     # second engine on the same claim: Kani on the compiled function (quick: it takes ~20 s)
     k = kani.run_harness("c19::c19_space_start_index_is_char_boundary", timeout_s=600)
     st = {"pass": "holds", "fail": "violated", "undecided": "undecided"}[k["status"]]
